@@ -379,10 +379,12 @@ def run(ctx):
             for rep in range(nrep if friction else 1):
                 where = dict(contact="Sphere2Sphere", subsystems=list(kinds), friction=friction)
                 key = f"Sphere2Sphere:{'-'.join(kinds)}"
+                rstate = rng.getstate()
                 b = guarded(key + ":build", where, lambda: build_spheres(ctx, rng, kinds, quats, friction))
                 if b is None:
                     continue
                 system, c, subs, rho1, rho2, fr_data = b
+                last_state = None
                 if rep == 0:
                     api += system_api(ctx, system, where, outcomes)
                 given = None
@@ -417,6 +419,31 @@ def run(ctx):
                         skipped[why] = skipped.get(why, 0) + 1
                         continue
                     records.append(res[0]); wheres[rid] = res[1]; counts["S"] += 1
+                    last_state = (t, res[2][1])
+                # history: evaluate at A, let step_callback transport the reference basis at another state B, evaluate at A again: the
+                # contact must answer like a twin with the same step_callback history that was never evaluated at A before
+                if friction and last_state is not None and fr_data is None:
+                    def history():
+                        tA, stA = last_state
+                        qA = np.concatenate([x[0] for x in stA]); uA = np.concatenate([x[1] for x in stA]); udA = np.concatenate([x[2] for x in stA])
+                        qB = qA.copy()
+                        mv = 0 if len(stA[0][0]) >= 3 else len(stA[0][0])
+                        qB[mv:mv + 3] += np.array([0.7, -1.3, 0.4])
+                        rng2 = type(rng)(0); rng2.setstate(rstate)
+                        _, c2, _, _, _, _ = build_spheres(ctx, rng2, kinds, quats, friction)
+                        laF = np.array([0.3, -0.4])
+                        ev = lambda cc: [np.asarray(cc.gamma_F(tA, qA.copy(), uA.copy())), np.asarray(cc.gamma_F_q(tA, qA.copy(), uA.copy())), np.asarray(cc.W_F(tA, qA.copy())),
+                                         np.asarray(cc.Wla_F_q(tA, qA.copy(), laF)), np.asarray(cc.gamma_F_dot(tA, qA.copy(), uA.copy(), udA.copy()))]
+                        ev(c)                                   # (the original has been evaluated at A; make sure every routine was)
+                        c.step_callback(tA, qB.copy(), uA.copy()); c2.step_callback(tA, qB.copy(), uA.copy())
+                        got, ref = ev(c), ev(c2)
+                        for name, g_, r_ in zip(("gamma_F", "gamma_F_q", "W_F", "Wla_F_q", "gamma_F_dot"), got, ref):
+                            if g_.shape != r_.shape or np.max(np.abs(g_ - r_)) > 1e-12 * (1 + np.max(np.abs(r_))):
+                                ctx.violation(f"{key}:history:{name}", f"{name} evaluated at a state, then after step_callback at another state, again at the first state differs from a twin "
+                                              f"contact that was not evaluated before ({where})", dict(where, q=qA.tolist(), q_step=qB.tolist()))
+                        return True
+                    if guarded(key + ":history", where, history):
+                        counts["S-history"] = counts.get("S-history", 0) + 1
     if counts["P"] == 0 or counts["S"] == 0:
         raise tlc.MachineryError(f"no contact records produced: {counts}, skipped {skipped}")
     # system API table: judged by the specification as well
